@@ -593,6 +593,10 @@ def run(prog, rep):
     # ---------------------------------------------------------------- R13.9
     check_stream_reposition(prog, rep)
 
+    # ---------------------------------------------------------------- R13.10 (CSV stream entry point: chunked text, no look-ahead past it)
+    from rules import c09
+    c09.check_scanner_reads(prog, rep, 'R13.10')
+
 
 def check_detect(rep, det, site, enc, offset, res, what, enum):
     want = enum['items'][enc]
